@@ -14,6 +14,21 @@ BAS = "reactivex/internal/basic.py"
 NAIVE = {"utcnow", "utcfromtimestamp", "today"}
 
 
+def tz_relabels(tree: ast.AST):
+    """(node, why) for constructs that relabel instead of convert a datetime's zone."""
+    out = []
+    for n in ast.walk(tree):
+        if isinstance(n, ast.Call) and isinstance(n.func, ast.Attribute):
+            if n.func.attr == "replace" and any(k.arg == "tzinfo" for k in n.keywords):
+                out.append((n, "re-labels the time zone with replace(tzinfo=...) instead of converting"))
+            elif n.func.attr == "astimezone" and not n.args and not n.keywords:
+                out.append((n, "converts to the *local* zone of the process"))
+            elif n.func.attr == "astimezone" and isinstance(n.func.value, ast.Call) and call_name(n.func.value) == "datetime" \
+                    and not any(k.arg == "tzinfo" for k in n.func.value.keywords) and len(n.func.value.args) < 8:
+                out.append((n, "interprets a naive datetime(...) literal in the local zone of the process"))
+    return out
+
+
 def check(repo: Repo, rep: Report) -> None:
     rep.explanation = (
         "Structural clauses of the time conversions: every datetime construction in the package that reads a clock or a "
@@ -49,7 +64,24 @@ def check(repo: Repo, rep: Report) -> None:
                 tz = next((u(k.value) for k in node.keywords if k.arg == "tz"), u(node.args[1]) if len(node.args) > 1 else "")
                 rep.ob("Z1-aware-datetimes", f, short(node), "utc" in tz.lower(),
                        f"`{short(node)}` has no tz=timezone.utc: the result is a naive local time")
-    rep.require(n >= 3, f"datetime constructions found ({n})")
+    n_constructions = n
+    # Z3: an aware datetime is converted (astimezone / arithmetic), never relabelled
+    rep.rule("Z3-no-relabel", "no `.replace(tzinfo=...)` / argument-less `.astimezone()` on time values: relabelling changes the instant, "
+                              "and the local zone must not leak into conversions", floor=1)
+    probe = ast.parse("d = x.replace(tzinfo=timezone.utc)\ne = datetime(1970, 1, 1).astimezone()\nf = y.replace(hour=3)\ng = datetime(1970, 1, 1).astimezone(timezone.utc)")
+    rep.require(len(tz_relabels(probe)) == 3, "self-test of the relabel matcher (expected 3 matches in the embedded example)")
+    rep.ob("Z3-no-relabel", "reactivex", "matcher self-test: 3 of 4 embedded constructs match", True, nontrivial=False)
+    n_mod = 0
+    for mod in repo.modules.values():
+        if not mod.rel.startswith("reactivex/"):
+            continue
+        n_mod += 1
+        for node, why in tz_relabels(mod.tree):
+            f = mod.fn_at(node) or mod.root
+            rep.ob("Z3-no-relabel", f, short(node, 70), False,
+                   f"`{short(node, 70)}` {why}: the value then denotes a different instant than the one passed in (by the zone's "
+                   f"offset), so absolute due times fire early / late and conversions stop agreeing")
+    rep.extra["modules_scanned_for_relabel"] = n_mod
     con = repo.module(CON)
     ok = any(isinstance(x, ast.Assign) and u(x.targets[0]) == "UTC_ZERO" and "fromtimestamp(0" in u(x.value) and "utc" in u(x.value).lower()
              for x in con.tree.body)
@@ -100,3 +132,5 @@ def check(repo: Repo, rep: Report) -> None:
         rets = [s for s in sites(m) if isinstance(s.node, ast.Return)]
         rep.ob("Z2-epoch", m, f"{name}: identity on its own type (returns value unchanged otherwise)", len(rets) == 1 and u(rets[0].node.value) == v and not rets[0].ctx.branch,
                f"{name} does not return its argument unchanged when it already has the target type")
+    if not rep.violations:
+        rep.require(n_constructions >= 3, f"datetime constructions found ({n_constructions})")
